@@ -86,6 +86,12 @@ func runC19(rc *RunCtx) {
 			sc.Then = n
 		}
 	}
+	if flavour == 0 && sc.Then == nil && len(sc.Chunks) > 0 && t.Chance(1, 5) {
+		// bytes of something else arrive right behind the reply, in the same read (the start of an unsolicited frame, line noise)
+		extra := t.Bytes(1 + t.Choose(8))
+		sc.Reply = append(append([]byte(nil), sc.Reply...), extra...)
+		sc.Chunks[len(sc.Chunks)-1].N += len(extra)
+	}
 	sc.Hooks = true
 	sc.ObserveParse = sc.Kind != KSerial && t.Choose(2) == 0 // otherwise the client comes from the protocol's own constructor
 	sc.WrappedTimeouts = t.Choose(2) == 1
